@@ -82,6 +82,11 @@ def run(ctx):
     n_re, f_re = fs.object_reuse_failures(rng, 40 if tier == "quick" else 400)
     fq += f_re
     nq += n_re
+    # records without a time stamp (NaT): they satisfy no bound, so they belong only to contexts without window
+    nat = fs.gen_nat_cases(tier, rng)
+    for c in nat:
+        fq += fs.collected_rows_failures(c)
+    nq += len(nat)
     r1["failures"] += extra + fq
     r1["evaluations"] += nq
     return adapters.merge(
